@@ -134,6 +134,14 @@ MidpointsAreCentroids(r) ==
 CellCentroids(r) == LET a == r.parents[1]  b == r.child IN
                     /\ Len(b.cells) = Len(a.cells)
                     /\ \A c \in Cells(a) : Len(b.cells[c]) = 1 /\ Scaled(b.pts[b.cells[c][1] + 1], NCorner(a.type)) = SumPts(a, c, 1..NCorner(a.type))
+\* fill_between two polylines (parents 1 and 2, same numbers of points, straight connecting lines): the quads tile the polygon
+\* bounded by the first polyline (forwards) and the second (backwards); 2 A by the shoelace formula
+Poly(r) == LET a == r.parents[1].pts  b == r.parents[2].pts IN a \o [n \in 1..Len(b) |-> b[Len(b) + 1 - n]]
+FillArea(r) == LET p == Poly(r)  n == Len(p) IN
+               Total(r.child) = Abs(SumOver(1..n, LAMBDA i : Cross2(p[i], p[(i % n) + 1])))     \* (either sense of the polylines)
+\* duplicated cells removed: the same cells as the parent (as sets of corner coordinates), each once
+CellKeys(m) == {{P(m, c, a) : a \in 1..NCorner(m.type)} : c \in Cells(m)}
+CellSetPreserved(r) == Len(r.child.cells) = Len(r.parents[1].cells) /\ CellKeys(r.child) = CellKeys(r.parents[1])
 \* disconnect: every cell owns its points
 CellsOwnPoints(r) == LET m == r.child IN
                      /\ Len(m.pts) = SumOver(Cells(m), LAMBDA c : Len(m.cells[c]))
@@ -168,6 +176,9 @@ Clauses(r) ==
     [] r.op = "merge" -> {"CornersUnmoved", "NoDuplicatePoints", "VolumePreserved"} \cup If(GO(r), {"PositiveOrientation"})
                          \cup If(GU(r), {"NoUnusedPoints"})
     [] r.op = "centroids" -> {"CellCentroids"}
+    [] r.op = "fillbetween" -> {"FillArea", "PositiveOrientation", "NoUnusedPoints", "FacesAtMostTwice"} \cup If(GD(r), {"NoDuplicatePoints"})
+    [] r.op = "dupcells" -> {"CellSetPreserved", "VolumePreserved"} \cup If(GO(r), {"PositiveOrientation"}) \cup If(GD(r), {"NoDuplicatePoints"})
+                            \cup If(GU(r), {"NoUnusedPoints"})
     [] r.op = "offlattice" -> {"OnLattice"}     \* a lattice operation produced non-lattice coordinates
 Holds(c, r) ==
   CASE c = "PositiveOrientation" -> PositiveOrientation(r) [] c = "NoUnusedPoints" -> NoUnusedPoints(r)
@@ -177,6 +188,7 @@ Holds(c, r) ==
     [] c = "ExpandVolume" -> ExpandVolume(r) [] c = "RevolveVolume" -> RevolveVolume(r)
     [] c = "CornersUnmoved" -> CornersUnmoved(r) [] c = "MidpointsAreCentroids" -> MidpointsAreCentroids(r)
     [] c = "CellsOwnPoints" -> CellsOwnPoints(r) [] c = "CellCentroids" -> CellCentroids(r)
+    [] c = "FillArea" -> FillArea(r) [] c = "CellSetPreserved" -> CellSetPreserved(r)
     [] c = "OnLattice" -> FALSE
 Applicable(r) == Clauses(r)
 Failing(r) == {c \in Clauses(r) : ~Holds(c, r)}
